@@ -20,7 +20,7 @@ RULE = ("1..3 periodic actions (periods 1..10, initial states 0/5/-2) scheduled 
         "reactivex.interval(p)/timer(p, p) subscriptions — on TestScheduler/VirtualTimeScheduler/HistoricalScheduler; the action raises at a chosen "
         "state, sleeps inside the call (drift: 0, < period, = period, > period), disposes its own handle; dispose actions scheduled at/around tick "
         "boundaries; advance_to in one or several steps. Compared with the Lean model on the invocation log (task, clock, state), outcomes, final clock, "
-        "pending count, handler calls. Plus several jobs on ONE CatchScheduler (schedule_periodic/interval/timer(p,p), one raising, one scheduled after the "
+        "pending count, handler calls. Plus timer(duetime, period), duetime != period or absolute/past duetime, with ticks made late (< , = , > one period) by same-time actions that sleep and by a sleeping observer (oracle-only reference of the re-basing rule); several jobs on ONE CatchScheduler (schedule_periodic/interval/timer(p,p), one raising, one scheduled after the "
         "failure); oracle-only timer(d, p), d != p, and timer(d); oracle-only NewThreadScheduler.schedule_periodic under a controlled clock (per-call "
         "clock advance 0..2 periods, dispose/raise inside the k-th call); EventLoopScheduler.schedule_periodic under a controlled clock (`now` overridden, "
         "timed Condition.wait advances the clock; per-call clock advance 0..3 periods, dispose/raise in the k-th call) compared with the Lean periodic model "
@@ -49,6 +49,100 @@ def gen_timer(rng):
     return {"op": "timer_case", "sched": kind, "clock": c0, "due": d, "period": p, "dispose": dispose, "T": max(T, c0 + unit)}
 
 
+def gen_timer_late(rng):
+    """timer(duetime, period) with duetime != period (its own re-basing loop in observable/timer.py, not PeriodicScheduler) whose
+    ticks run LATE: blocker actions scheduled before the subscription at/around tick times run first and call scheduler.sleep(),
+    the observer itself sleeps inside on_next, or an absolute duetime lies in the past at subscribe time; lateness < period,
+    = period, > period"""
+    kind = rng.choice(["test", "vts", "hist"])
+    unit = 500 if kind == "hist" else 1
+    c0 = unit * rng.choice([0, 0, 20])
+    p = unit * rng.choice([5, 10, 10, 20])
+    d = unit * rng.choice([0, 3, 8, 15, 30])
+    if d == p:
+        d += unit
+    absolute = rng.random() < 0.35
+    due0 = c0 + d
+    if absolute and rng.random() < 0.5:
+        due0 = c0 - unit * rng.choice([1, 2, p // unit - 1, p // unit, p // unit + 3])   # absolute duetime already in the past
+    lates = [unit * x for x in (1, 2, p // unit // 2, p // unit - 1, p // unit, p // unit + 1, 2 * p // unit + 3)]
+    blockers = []
+    for _ in range(rng.choice([0, 1, 1, 2, 3])):
+        k = rng.randrange(0, 5)
+        t = due0 + k * p + unit * rng.choice([0, 0, 0, -1, -2])
+        if t >= c0:
+            blockers.append([t, rng.choice(lates)])
+    obs_sleep = [rng.choice([0, 0, 0] + lates) for _ in range(8)] if rng.random() < 0.5 else [0] * 8
+    T = max(due0, c0) + p * rng.randrange(2, 7) + unit * rng.choice([0, 1])
+    return {"op": "timer_late", "sched": kind, "clock": c0, "due0": due0, "absolute": absolute or due0 < c0, "period": p,
+            "blockers": sorted(blockers), "obs_sleep": obs_sleep, "T": T}
+
+
+def _run_timer_late(case):
+    import reactivex
+
+    rig = vc.Rig(case)
+    seen = []
+    for t, b in case["blockers"]:      # scheduled BEFORE the subscription: at equal due time they run first
+        rig.s.schedule_absolute(rig.abs_(t), lambda sc, st, b=b: rig.s.sleep(rig.rel(b)))
+    if case["absolute"]:
+        if case["sched"] == "hist":
+            due = rig.abs_(case["due0"])
+        else:
+            from datetime import datetime, timezone
+
+            due = datetime.fromtimestamp(case["due0"], tz=timezone.utc)
+    else:
+        due = rig.rel(case["due0"] - case["clock"])
+    src = reactivex.timer(due, rig.rel(case["period"]))
+
+    def on_next(v):
+        seen.append([rig.clock(), v])
+        z = case["obs_sleep"][v % len(case["obs_sleep"])]
+        if z:
+            rig.s.sleep(rig.rel(z))
+
+    src.subscribe(on_next, scheduler=rig.s)
+    rig.s.advance_to(rig.abs_(case["T"]))
+    return {"seen": seen}
+
+
+def timer_late_oracle(case, out):
+    """reference from the property text: tick k is due at duetime + k*period; a tick that runs late (the clock had already passed
+    its due time) stays on that grid unless it is late by a period or more, in which case the next one is due one period after
+    it ran.  Everything runs in (due, scheduling order) at max(clock, due)."""
+    p, T = case["period"], case["T"]
+    clock = case["clock"]
+    pend = [[t, i, "b", b] for i, (t, b) in enumerate(case["blockers"])]
+    seq = len(pend)
+    pend.append([case["due0"], seq, "t", 0])
+    exp = []
+    while True:
+        due_items = [x for x in pend if x[0] <= T]
+        if not due_items:
+            break
+        x = min(due_items, key=lambda x: (x[0], x[1]))
+        pend.remove(x)
+        clock = max(clock, x[0])
+        if x[2] == "b":
+            clock += x[3]
+        else:
+            k = x[3]
+            ran = clock
+            exp.append([ran, k])
+            nxt = x[0] + p if ran - x[0] < p else ran + p
+            clock += case["obs_sleep"][k % len(case["obs_sleep"])]
+            seq += 1
+            pend.append([nxt, seq, "t", k + 1])
+        if len(exp) > 200:
+            break
+    if out["seen"] != exp:
+        return (f"timer(duetime -> first due {case['due0']}, period {p}) from clock {case['clock']} until {T}, blockers (time, sleep) "
+                f"{case['blockers']}, observer sleeps {case['obs_sleep']}: emitted (clock, value) {out['seen'][:10]}, expected {exp[:10]} "
+                f"(tick k at duetime + k*period unless a tick ran a period or more late)")
+    return None
+
+
 def cases(rng, tier):
     for _ in range(fw.tier_scale(tier, 1600, 16000)):
         yield vc.gen_periodic(rng, catch_p=0.15, raise_p=0.3,
@@ -57,6 +151,8 @@ def cases(rng, tier):
         yield gen_timer(rng)
     for _ in range(fw.tier_scale(tier, 300, 3000)):
         yield vc.gen_catch_siblings(rng)
+    for _ in range(fw.tier_scale(tier, 500, 5000)):
+        yield gen_timer_late(rng)
     for _ in range(fw.tier_scale(tier, 120, 1200)):
         yield gen_nts(rng)
     for _ in range(fw.tier_scale(tier, 200, 2000)):
@@ -259,6 +355,9 @@ def _run_timer(case):
 
 
 def impl(case):
+    if case["op"] == "timer_late":
+        st, res = vc.alarm_timeout(_run_timer_late, (case,))
+        return res if st == "ok" else {"hang": True, "watchdog_s": vc.WATCHDOG_S}
     if case["op"] == "el_case":
         st, res = vc.alarm_timeout(_run_el, (case,), 14.0)
         return res if st == "ok" else {"hang": True, "watchdog_s": 14.0}
@@ -274,7 +373,7 @@ def impl(case):
 def canon_impl(case, out):
     if case["op"] == "el_case":
         return {"hang": True} if out.get("hang") else {"log": out["log"]}
-    return out if case["op"] in ("timer_case", "nts_case") else vc.canon_impl(case, out)
+    return out if case["op"] in ("timer_case", "nts_case", "timer_late") else vc.canon_impl(case, out)
 
 
 def canon_model(case, resp):
@@ -306,6 +405,8 @@ def el_oracle(case, out):
 def oracle(case, out):
     if out.get("hang"):
         return "advance_to did not return within the watchdog"
+    if case["op"] == "timer_late":
+        return timer_late_oracle(case, out)
     if case["op"] == "nts_case":
         return nts_oracle(case, out)
     if case["op"] == "el_case":
@@ -328,6 +429,8 @@ def oracle(case, out):
 
 
 def nontrivial(case, out):
+    if case["op"] == "timer_late":
+        return len(out.get("seen", [])) >= 2 and (bool(case["blockers"]) or any(case["obs_sleep"]))
     if case["op"] == "el_case":
         return len(out.get("log", [])) >= 2
     if case["op"] == "nts_case":
@@ -341,6 +444,13 @@ def nontrivial(case, out):
 
 
 def bucket(case, out):
+    if case["op"] == "timer_late":
+        yield "timer-late:" + ("absolute" if case["absolute"] else "relative")
+        if case["blockers"]:
+            yield "timer-late:blockers"
+        if any(case["obs_sleep"]):
+            yield "timer-late:slow-observer"
+        return
     if case["op"] == "el_case":
         yield "eventloop:" + ("no-advance" if not any(case["adv"]) else "overrun" if all(a >= case["period_us"] for a in case["adv"]) else "mixed")
         yield "eventloop:" + ("raise" if case["raise_at"] is not None else "dispose")
@@ -396,5 +506,6 @@ LEVEL_NOTE = ("Theorems and model are for virtual time. Real-thread periodic sch
               "closed_form_any_sleep: any sleep, next call max(period, sleep) after the previous one started). With several tasks the timing depends on the other "
               "work; what is proved there is the per-tick rule (tick_rule: invoked at max(clock, due), next tick due = start of this call + period, state threaded) "
               "and the stop invariants — the correspondence covers those mixes. timer(d, p) with d != p "
-              "(absolute rescheduling in observable/timer.py) is checked by the oracle only, not modelled. period <= 0 (the real advance_to then spins for ever) "
+              "(its own absolute re-basing loop in observable/timer.py, distinct from PeriodicScheduler) is checked by the oracle only — including late ticks, against a "
+              "reference of the rule 'tick k at duetime + k*period unless a tick ran a period or more late' — not modelled in Lean. period <= 0 (the real advance_to then spins for ever) "
               "is outside the model (reported as `stuck`).")
